@@ -31,11 +31,6 @@ class Observation:
         self.events: List[Any] = []
 
 
-def _reject_constant(name: str) -> Any:
-    # NaN / Infinity are not JSON: a response text containing them is not a JSON document (the harness never sends them as params)
-    raise ValueError(f"non-finite constant {name} in response text")
-
-
 def registry_of(spec: Dict[str, Any]) -> List[Dict[str, Any]]:
     r = spec.get('registry', 'std')
     return stdreg.std_registry(spec['dispatcher']) if r == 'std' else r
